@@ -349,6 +349,10 @@ def run(ctx, rep):
                 good = comps == ["arg2.0.0", "arg2.0.1", "arg2.1"]
             rep.check(good, "R7.4", "R7.4|CdpArray|into_iter_map", "((rdh, payload), pos) ↦ (rdh, payload, pos)", clo, "map builds %s" % (comps if tups else None))
 
+    # ---------------- R7.6 the scanner's own offset bookkeeping (rules R3.0–R3.3 of C03, shared)
+    from . import c03
+    c03.run_offset_rules(ctx, rep)
+
     # ---------------- R7.7 word dump
     ub = cg.body(UTIL_REPORT)
     fss = emit.format_sites(f, ub)
